@@ -210,22 +210,28 @@ def observers_terminated(tree, rep, rule="C18.R5"):
 def r5_observers(tree, rep):
     # SequenceObserver.when_next_event: the error is tested before the queue
     fn = tree.func(OBS, "SequenceObserver", "when_next_event")
-    g = build(fn)
+    g = build(fn, split=True)
     err_tests = [n for n in g.nodes(lambda s: isinstance(s, ast.If)) if _mentions_self(g.stmt[n].test, "_error")]
     pops = g.call_nodes(lambda c: isinstance(c.func, ast.Attribute) and c.func.attr in ("pop", "popleft")
                         and is_self_attr(c.func.value, "_results"))
+    from ..cfg import truthy_atom
+    has_error = truthy_atom(lambda e: is_self_attr(e, "_error"))
     ok = bool(err_tests) and bool(pops)
     if ok:
         # a buffered result is handed out only on a path where the error test was false
-        reach = g.guarded_by(err_tests, pops, 'F')
-        ok = not reach
+        ok = not g.only_when(pops, has_error, False)
     rep.check("C18.R5", "SequenceObserver.when_next_event tests the stored error before handing out a buffered result",
               ok, site(fn, OBS), key="C18.R5:SequenceObserver.when_next_event:error-first",
               what="after closed, get_message() can still return a buffered message instead of failing")
     errb = g.call_nodes(lambda c: any(dotted(a) == "d.errback" or (isinstance(a, ast.Attribute) and a.attr == "errback")
                                       for a in c.args))
-    rep.check("C18.R5", "when_next_event errbacks when an error is stored", bool(errb) and all(
-        not g.guarded_by(err_tests, errb, 'T') for _ in [0]), site(fn, OBS), key="C18.R5:SequenceObserver.when_next_event:errback")
+    n_err, unmet = g.when_never_reaches(has_error, True, [g.exit]) if False else (len(g.cond_edges(has_error, True)), [])
+    # with an error stored, every path to the exit passes the errback
+    ok_e = bool(errb) and n_err > 0
+    for (x, y, lab) in g.cond_edges(has_error, True):
+        ok_e = ok_e and g.exit not in g.reach([y], avoid_nodes=set(errb), explicit_only=True)
+    rep.check("C18.R5", "when_next_event errbacks when an error is stored", ok_e, site(fn, OBS),
+              key="C18.R5:SequenceObserver.when_next_event:errback")
     # fire(Failure) errbacks every waiting observer and stores the error
     ff = tree.func(OBS, "SequenceObserver", "fire")
     stores = [n for n in ast.walk(ff) if isinstance(n, ast.Assign) and any(is_self_attr(t, "_error") for t in n.targets)]
@@ -235,10 +241,11 @@ def r5_observers(tree, rep):
               bool(stores) and bool(loops), site(ff, OBS), key="C18.R5:SequenceObserver.fire:error")
     # OneShotObserver
     fi = tree.func(OBS, "OneShotObserver", "fire_if_not_fired")
-    g2 = build(fi)
-    tests = [n for n in g2.nodes(lambda s: isinstance(s, ast.If)) if _mentions_self(g2.stmt[n].test, "_result")]
+    g2 = build(fi, split=True)
+    from ..cfg import cmp_atom
+    no_result = cmp_atom(lambda e: is_self_attr(e, "_result"), lambda e: dotted(e) == "NoResult", (ast.Is, ast.Eq), (ast.IsNot, ast.NotEq))
     fires = g2.call_nodes(lambda c: dotted(c.func) == "self.fire")
-    ok = bool(tests) and bool(fires) and not g2.guarded_by(tests, fires, 'T')
+    ok = bool(fires) and not g2.only_when(fires, no_result, True)
     rep.check("C18.R4", "OneShotObserver.fire_if_not_fired fires only while no result is stored", ok, site(fi, OBS),
               key="C18.R4:OneShotObserver.fire_if_not_fired")
     er = tree.func(OBS, "OneShotObserver", "error")
